@@ -2651,7 +2651,8 @@ func (p *Parser) parseTableOptions(create *ast.CreateQuery) {
 								binExpr.Parenthesized = true
 							}
 							// Continue parsing from this expression as left operand
-							expr = p.parseExpressionFrom(expr, LOWEST)
+							// (ALIAS_PREC: a following AS SELECT is not an alias)
+							expr = p.parseExpressionFrom(expr, ALIAS_PREC)
 						}
 						create.OrderBy = []ast.Expression{expr}
 					}
